@@ -1,5 +1,6 @@
 import JominiModel.Proofs.BinTapeDead
 import JominiModel.Proofs.BinTapePayload
+import JominiModel.Spec.BinTapeLex
 /-
 C06 (binary half), object classification: on every accepted tape the body of every `Object`, up to
 its first `MixedContainer` marker (or its end), is a sequence of `key value` pairs with every key a
@@ -9,15 +10,6 @@ container with its body phase, coupled to the parser state) is the loop invarian
 namespace Jomini.BinTape
 open Jomini
 
-
-/-- a token that can stand in value position: plain, and neither the `MixedContainer` marker nor an `Equal`
-(the parser pushes those only behind a marker / in key position) -/
-def BTok.isVal (t : BTok) : Bool := t.isPlain && (t != .mixed) && (t != .equal)
-
-/-- a token that can stand in key position: a scalar or id — plain, not the marker, not `Equal`, not an `Rgb`
-(an rgb block is recognised in value position only) -/
-def BTok.isKey (t : BTok) : Bool :=
-  t.isVal && (match t with | .rgb _ _ _ _ => false | _ => true)
 
 /-- where the body of an object stands: complete pairs (`K`: a key comes next), a key waiting for its
 value (`V`), or past a `MixedContainer` marker (`M`: anything goes) -/
